@@ -236,7 +236,7 @@ def check_case(case, ctx=None):
             if rows is None or [r["name"] for r in rows] != exp:
                 vios.append(("C15/includeDeprecated-%s/%s" % ({None: "absent", False: "false", True: "true"}[flag], member),
                              "type=%s got=%r expected=%r" % (tn, rows and [r["name"] for r in rows], exp)))
-            elif any(r["isDeprecated"] != (m["deprecated"] is not None) or (r["deprecationReason"] or None) != m["deprecated"]
+            elif any(r["isDeprecated"] != (m["deprecated"] is not None) or r["deprecationReason"] != m["deprecated"]
                      for r, m in zip(rows, [m for m in ms if flag or m["deprecated"] is None])):
                 vios.append(("C15/deprecation-flags-differ/%s" % member, "type=%s rows=%r" % (tn, rows[:3])))
             if ctx is not None:
